@@ -20,7 +20,13 @@ Export == (Len(hist) = Depth) => PrintT(<<"TRACE", ToJson(hist)>>)
 \* (so that rare types are exercised as often as types with many argument tuples) and then such a command
 \* of that type; otherwise any command of any type (mostly invalid arguments).
 \* (parameterised by the state so that TLC does not cache the choices as constants)
-Effective(c, S) == {x \in S : \E r \in {Ap(c, x, Dev)} : r.r = "ok" /\ r.c # c}
+\* (an unmodelled command counts once a database exists: most of them work on one)
+Effective(c, S) == {x \in S : (x.op = "Opaque" /\ \E d \in DBs : c.dbs[d].ex) \/
+                               (x.op # "Opaque" /\ \E r \in {Ap(c, x, Dev)} : r.r = "ok" /\ r.c # c)}
+\* ... or is refused because of the sharding type (the rule that keeps a policy uniform), or is refused or
+\* accepted differently by the as-implemented lineage
+Refused(c, S) == {x \in S : Ap(c, x, Dev).r \in {"shard_type_conflict", "conflict_with_rep"} \/
+                              (Track /\ Ap(catI, x, IDev).r # Ap(c, x, Dev).r)}
 \* the as-implemented lineage panics on this command (the real process would stop): offered rarely
 Panicky(x) == Track /\ Ap(catI, x, IDev).r = "panic"
 OpBag == <<"CreateShardGroup", "CreateShardGroup", "CreateShardGroup", "CreateShardGroup", "CreateShardGroup", "CreateShardGroup",
@@ -29,9 +35,10 @@ OpBag == <<"CreateShardGroup", "CreateShardGroup", "CreateShardGroup", "CreateSh
            "PruneGroups", "CreateRetentionPolicy", "CreateRetentionPolicy", "CreateDatabase", "CreateDatabase", "CreateDbPtView",
            "CreateDbPtView", "CreateDataNode", "CreateSqlNode", "UpdateReplication", "MarkDatabaseDelete", "DropDatabase",
            "MarkRetentionPolicyDelete", "DropRetentionPolicy", "SetDefaultRetentionPolicy", "MarkMeasurementDelete",
-           "MarkMeasurementDelete", "DropMeasurement", "CreateUser", "DropUser", "SetPrivilege", "SetPrivilege">>
+           "MarkMeasurementDelete", "DropMeasurement", "CreateUser", "DropUser", "SetPrivilege", "SetPrivilege",
+           "Opaque", "Opaque", "Opaque">>
 SimPick(c, E, j) ==
-  IF E # {} /\ RandomElement(1..6) > 1
+  IF E # {} /\ RandomElement(1..7) > 1
   THEN LET W  == SelectSeq(OpBag, LAMBDA o : \E x \in E : x.op = o)
            op == IF W = <<>> THEN RandomElement({x.op : x \in E}) ELSE W[RandomElement(1..Len(W))]
        IN RandomElement({x \in E : x.op = op})
@@ -40,7 +47,7 @@ SimPick(c, E, j) ==
 SimSample(c) == UNION {LET S == CmdsOf(op, c) IN IF Cardinality(S) <= 10 THEN S ELSE RandomSubset(10, S) :
                          op \in Ops \ {"Snapshot"}}
 SimCmds == UNION {{y \in {SimPick(cat, E, j) : j \in 1..3} : ~Panicky(y) \/ RandomElement(1..8) = 1} :
-                  E \in {Effective(cat, SimSample(cat))}}
+                  E \in {LET S == SimSample(cat) IN Effective(cat, S) \cup Refused(cat, S)}}
 \* BFS export: every path of effective commands (plus one failing command per type) of a tiny universe,
 \* following the set-up prefix, so that paths reach shard groups within the depth bound
 BfsCmds == {x \in Effective(cat, AllCmds(cat)) :
@@ -48,4 +55,22 @@ BfsCmds == {x \in Effective(cat, AllCmds(cat)) :
                /\ ~(x.op = "UpdateRetentionPolicy" /\ (x.l[1] = 1 \/ x.b # -1)) \* shard-group duration changes only
                /\ ~(x.op = "CreateDatabase" /\ x.rp = "")}
 SimSnapGate == RandomElement(1..6) = 1 /\ (cat.maxMst > 0 \/ RandomElement(1..4) = 1)
+
+\* ---- systematic snapshot families: every path of measurement life-cycle commands (create / mark
+\* deleted / drop / re-create, shard groups) with Snapshot / Persist / Restore at EVERY position, after a
+\* set-up prefix that is part of the exported history
+SkOne == {0}
+TimesLife == {0}
+TimesLife2 == {0, 5}
+PrefixLife1 == <<Cmd("CreateDataNode", "", "", "h1", 0, 0, <<>>),
+                 Cmd("CreateDbPtView", "d1", "", "", 1, 0, <<>>),
+                 Cmd("CreateDatabase", "d1", "r1", "", 4, 0, <<1>>)>>
+PrefixLife2 == <<Cmd("CreateDataNode", "", "", "h1", 0, 0, <<>>),
+                 Cmd("CreateDataNode", "", "", "h2", 0, 0, <<>>),
+                 Cmd("CreateDbPtView", "d1", "", "", 1, 0, <<>>),
+                 Cmd("CreateDatabase", "d1", "r1", "", 4, 0, <<1>>)>>
+\* effective commands, and the creations the sharding-type rule refuses
+\* (the policy is always named: the default-policy spelling "" doubles every path and is exercised by the
+\* other generators)
+LifeCmds == LET S == {x \in AllCmds(cat) : x.rp # ""} IN Effective(cat, S) \cup Refused(cat, S)
 =============================================================================
